@@ -653,6 +653,20 @@ def case_realistic(case, res):
             continue
         before = state_bytes(S)
         mode = "jit" if step % 4 == 3 else "eager"
+        if step % 5 == 2:
+            # a call that cannot succeed (a position of the wrong shape / an unknown key): whatever it raises, the
+            # interface must serve the following calls as if it had never happened
+            vec = [it for it in items if it["shape"]]
+            try:
+                if vec and step % 2 == 0:
+                    it_ = vec[int(rng.integers(len(vec)))]
+                    tgt_ = A.transformed[it_["name"]].name if it_["name"] in A.transformed else it_["name"]
+                    iface.update_state({tgt_: jnp.zeros((int(it_["shape"][0]) + 2, 7), A.ft)}, S)
+                else:
+                    iface.update_state({**pos, "no_such_key": jnp.asarray(1.0)}, S)
+                res.ev("bad_calls_that_did_not_raise")
+            except Exception:  # noqa: BLE001
+                res.ev("rejected_calls_between_valid_ones")
         out = (jit_update if mode == "jit" else iface.update_state)(pos, S)
         res.mon("realistic_log_prob_vs_oracle")
         lp = iface.log_prob(out)
